@@ -357,6 +357,16 @@ def inline_summary(path, depth=0):
     return _SUMMARIES[path]
 
 
+def _mentions_local(x, l):
+    if isinstance(x, dict):
+        if x.get('l') == l and 'p' in x:
+            return True
+        return any(_mentions_local(v, l) for v in x.values())
+    if isinstance(x, list):
+        return any(_mentions_local(v, l) for v in x)
+    return False
+
+
 class Ctx:
     def __init__(self, facts):
         self.f = facts
@@ -460,6 +470,40 @@ class Ctx:
                             continue
                         out.append((b, i, s))
         return out
+
+    def only_compared(self, body, stmt):
+        """is the value built by aggregate statement `stmt` used for nothing but a comparison (`x == Variant`)?
+        i.e. its local is only borrowed, and those borrows only feed PartialEq::eq / ne"""
+        if stmt['place']['p']:
+            return False
+        l = stmt['place']['l']
+        refs = set()
+        for blk in body.blocks:
+            for s in blk['stmts']:
+                if s is stmt or s['k'] != 'assign':
+                    continue
+                rv = s['rv']
+                if rv['k'] == 'ref' and rv['place']['l'] == l and not rv['place']['p'] and not s['place']['p']:
+                    refs.add(s['place']['l'])
+                elif _mentions_local(rv, l):
+                    return False
+            t = blk['term']
+            if _mentions_local({k: v for k, v in t.items() if k != 'dest'}, l):
+                return False
+        if not refs:
+            return False
+        for blk in body.blocks:
+            for s in blk['stmts']:
+                if s['k'] == 'assign' and any(_mentions_local(s['rv'], r) for r in refs):
+                    return False
+            t = blk['term']
+            if t['k'] == 'call':
+                uses = [a for a in t['args'] if any(_mentions_local(a, r) for r in refs)]
+                if uses and not ((callee_path(t) or '').endswith('::eq') or (callee_path(t) or '').endswith('::ne')):
+                    return False
+            elif any(_mentions_local(t, r) for r in refs):
+                return False
+        return True
 
     def field_writes(self, adt_ty_rx, field):
         """assignments whose destination place ends in field `field` of a base whose type matches adt_ty_rx.
@@ -1243,6 +1287,34 @@ def literal(cond):
     return ('bool', strip_transparent(t), None, truth)
 
 
+def looks_bool(t):
+    """is the term a boolean observation (predicate call, comparison, negation)?"""
+    t = strip_transparent(t)
+    if not isinstance(t, tuple) or not t:
+        return False
+    if t[0] == 'un' and t[1] == 'Not':
+        return looks_bool(t[2])
+    if t[0] == 'bin' and t[1] in ('Lt', 'Le', 'Gt', 'Ge', 'Eq', 'Ne'):
+        return True
+    if t[0] == 'call' and isinstance(t[1], str):
+        last = t[1].split('::')[-1]
+        return last.startswith('is_') or last in ('contains', 'contains_key', 'any', 'all', 'eq', 'ne', 'lt', 'le', 'gt', 'ge', 'starts_with', 'ends_with') or bool(cmp_kind_of_call(t[1]))
+    return False
+
+
+def bool_eq_alternatives(c):
+    """[[cond, ..], ..]: the cases of a condition `a == b` / `a != b` over two boolean observations; else [[c]]"""
+    lit = literal(c)
+    if lit[0] == 'eq' and lit[3] is not None and looks_bool(lit[1]) and looks_bool(lit[2]):
+        def mk(t, val):
+            return (t, ('not', (0,)) if val else 0, c[2] if len(c) > 2 else -1, 'bool')
+        a, b = lit[1], lit[2]
+        if lit[3]:
+            return [[mk(a, True), mk(b, True)], [mk(a, False), mk(b, False)]]
+        return [[mk(a, True), mk(b, False)], [mk(a, False), mk(b, True)]]
+    return [[c]]
+
+
 class Table:
     """decision table extracted from the complete paths of a Sym run.
     classify(literal, cond) -> (atom_name, allowed) where allowed is a bool or a set of domain values
@@ -1254,10 +1326,21 @@ class Table:
     @staticmethod
     def build(paths, classify, outcome):
         rows = []
+        expanded = []
         for p in paths:
+            # a condition that compares two boolean observations (`a.is_x() == b.is_x()`) is split into its cases
+            alts = [[]]
+            for c in p.conds:
+                ca = bool_eq_alternatives(c)
+                alts = [a + x for a in alts for x in ca]
+                if len(alts) > 64:
+                    raise Lost('too many boolean cases on one path')
+            for a in alts:
+                expanded.append((p, a))
+        for p, conds in expanded:
             val = {}
             consistent = True
-            for c in p.conds:
+            for c in conds:
                 lit = literal(c)
                 r = classify(lit, c)
                 if r is None:
